@@ -512,8 +512,15 @@ CHECK_DEADLOCK FALSE
         ctx.notes["bounds"] = "keepalive goroutine: write failure at the k-th ping for k<=%d, session end after n<=%d pings while idle / with a tick already consumed / never, all tick-vs-quit races in the model; real client: intervals 5..40 ms (thorough 5..150 ms), SM on/off, write failure at the k-th keepalive for k<=4 with reads blocking" % ((4, 4) if q else (6, 6))
         out, nev, _ = vlib.run_driver(ctx, "c18", scen=scen, timeout=1800)
         ctx.verdicts += vlib.tlc_trace(ctx, "TraceKeepalive", "Trace_Keepalive.cfg", out, nev)
+        # every session has its keepalive, also the ones the StreamManager re-establishes: lifecycle behaviours with a keepalive interval
+        lscen = []
+        for g in [dict(rounds=1, attempts=1, outcomes=S("refuse", "transient"), sm=True), dict(rounds=2 if q else 3, attempts=1, outcomes=S("reset"), sm=False)]:
+            lscen += blines(vlib.tlc_mc(ctx, "Lifecycle", "MC_Lifecycle.cfg", cfgtext=life_cfg(**g)))
+        out, nev, _ = vlib.run_driver(ctx, "life", scen=lscen, args=["-kaonly"], timeout=1800)
+        ctx.verdicts += vlib.tlc_trace(ctx, "TraceLifecycle", "Trace_Lifecycle.cfg", out, nev, timeout=900)
     replay_or(ctx, "c18", "TraceKeepalive", "Trace_Keepalive.cfg", full)
     ctx.assumptions += ["real time: upper bound exact (pings <= elapsed/interval + 1), lower bound tolerant (>= half); at most one keepalive after the session ended (its tick was already due)",
+                        "every session of a StreamManager run (first and re-established, resumed or freshly bound) is observed for 20 intervals and must show at least a quarter of the expected keepalives",
                         "stale-keepalive interference during a reconnection (old session's goroutine vs the new connection) is not covered"]
 FAMILY_TRACE["c18"] = ("TraceKeepalive", "Trace_Keepalive.cfg")
 
@@ -571,7 +578,7 @@ def c07(ctx):
                 raise Infra("non-vacuity: model variant '%s' did not violate a C07 invariant (exit %d)" % (name, r["code"]))
         ctx.notes["non_vacuity"] = "model variants D15 (register after write), D14 (separate critical sections), D14 (unbuffered channel) each violate a C07 invariant"
         ctx.notes["bounds"] = "every schedule of length %d of 1 request x 2 responses (SendIQ in two steps, dispatch in up to four, receiver reading or abandoning, context cancellation), %d random schedules of 2 requests (distinct or clashing ids) x 3 responses, duplicates sent concurrently through a real connection; all interleavings of 2 requests x 3 responses in the model" % (n1, 250 if q else 3000)
-        out, nev, _ = vlib.run_driver(ctx, "c07", scen=scen, args=["-stress", "20" if q else "200"], timeout=3000)
+        out, nev, _ = vlib.run_driver(ctx, "c07", scen=scen, args=["-stress", "56" if q else "280"], timeout=3000)
         ctx.verdicts += vlib.tlc_trace(ctx, "TraceIQRoutes", "Trace_IQRoutes.cfg", out, nev, timeout=1800)
     replay_or(ctx, "c07", "TraceIQRoutes", "Trace_IQRoutes.cfg", full)
     ctx.assumptions += ["gates (hooks route.lookup/deleted/sent/closed, sendiq.written, iqroute.ctxdone) only order the goroutines; a step that reaches no gate within 40 ms is taken as blocked and the schedule goes on",
